@@ -69,21 +69,18 @@ pub enum CimSubModeNormal {
     PitInstructions = 4,
 }
 
-impl From<u8> for CimSubModeNormal {
-    fn from(value: u8) -> Self {
-        match value {
+impl TryFrom<u8> for CimSubModeNormal {
+    type Error = u8;
+
+    fn try_from(value: u8) -> Result<Self, Self::Error> {
+        Ok(match value {
             0 => Self::Normal,
             1 => Self::WheelTemps,
             2 => Self::WheelDamage,
             3 => Self::LiveSettings,
             4 => Self::PitInstructions,
-            other => {
-                unreachable!(
-                    "Unhandled CimSubModeNormal. Perhaps a programming error or protocol update? Found {}, expected 0-4.",
-                    other
-                )
-            },
-        }
+            other => return Err(other),
+        })
     }
 }
 
@@ -122,9 +119,11 @@ pub enum CimSubModeGarage {
     Pass = 8,
 }
 
-impl From<u8> for CimSubModeGarage {
-    fn from(value: u8) -> Self {
-        match value {
+impl TryFrom<u8> for CimSubModeGarage {
+    type Error = u8;
+
+    fn try_from(value: u8) -> Result<Self, Self::Error> {
+        Ok(match value {
             0 => Self::Info,
             1 => Self::Colours,
             2 => Self::BrakeTC,
@@ -134,12 +133,8 @@ impl From<u8> for CimSubModeGarage {
             6 => Self::Tyres,
             7 => Self::Aero,
             8 => Self::Pass,
-            other => {
-                unreachable!(
-                    "Unhandled CimSubModeGarage. Perhaps a programming error or protocol update? Found {}, expected 0-8", other
-                )
-            },
-        }
+            other => return Err(other),
+        })
     }
 }
 
@@ -183,11 +178,17 @@ impl BinRead for CimMode {
         let submode = u8::read_options(reader, endian, ())?;
         let seltype = u8::read_options(reader, endian, ())?;
 
+        // an out-of-range submode from the wire is a decode error, not a reason to abort
+        let bad_submode = |found: u8| binrw::Error::BadMagic {
+            pos,
+            found: Box::new(found),
+        };
+
         let res = match discrim {
-            0 => Self::Normal(submode.into()),
+            0 => Self::Normal(submode.try_into().map_err(bad_submode)?),
             1 => Self::Options,
             2 => Self::HostOptions,
-            3 => Self::Garage(submode.into()),
+            3 => Self::Garage(submode.try_into().map_err(bad_submode)?),
             4 => Self::CarSelect,
             5 => Self::TrackSelect,
             6 => Self::ShiftU {
